@@ -374,16 +374,8 @@ func judgeHonest(c *Case, ps *paramSet, st *static, m0 *model, pr *probe, nf pro
 	if m0.either {
 		return "", ""
 	}
-	if strings.Contains(err.Error(), "hint function must return at least one output") {
-		for i, o := range c.Ops {
-			if o.Op == "Eval" && !st.skip[i] {
-				for _, x := range st.opnds[i] {
-					if st.zeroLimb[x] {
-						return "", "Eval (experimental API) with an operand on zero limbs"
-					}
-				}
-			}
-		}
+	if why := benign(c, st, err); why != "" {
+		return "", why
 	}
 	if m0.taintedAssert || taintedClaim {
 		return "", "honest prover's square root is not the one the sequence needs"
@@ -398,6 +390,23 @@ func judgeHonest(c *Case, ps *paramSet, st *static, m0 *model, pr *probe, nf pro
 	}
 	return fmt.Sprintf("%s: every op is within its documented domain and the model satisfies all assertions, but the honest execution failed: %s",
 		where, trunc(err.Error(), 700)), ""
+}
+
+// benign recognises failures that are outside what the documentation promises.
+func benign(c *Case, st *static, err error) string {
+	if err != nil && strings.Contains(err.Error(), "hint function must return at least one output") {
+		// Eval is documented as experimental; it cannot size its hint when an operand is the constant on zero limbs
+		for i, o := range c.Ops {
+			if o.Op == "Eval" && !st.skip[i] {
+				for _, x := range st.opnds[i] {
+					if st.zeroLimb[x] {
+						return "Eval (experimental API) with an operand on zero limbs"
+					}
+				}
+			}
+		}
+	}
+	return ""
 }
 
 func trunc(s string, n int) string {
@@ -476,6 +485,10 @@ func run(c Case, rec *ev.Recorder) (out ev.Outcome) {
 				panic(err)
 			}
 			if err != nil {
+				noteZeroLimbs(st, pr)
+				if why := benign(&c, st, err); why != "" {
+					return ev.Outcome{Discard: true, DiscardWhy: why}
+				}
 				if m0.failAt >= 0 {
 					res.class("compile-reject")
 					continue
@@ -525,6 +538,10 @@ func run(c Case, rec *ev.Recorder) (out ev.Outcome) {
 			panic(err)
 		}
 		if err != nil {
+			noteZeroLimbs(st, pr)
+			if why := benign(&c, st, err); why != "" {
+				return ev.Outcome{Discard: true, DiscardWhy: why}
+			}
 			if m0.failAt >= 0 {
 				res.class("compile-reject")
 				return finish("", "", pr)
